@@ -297,6 +297,19 @@ def softmax(ctx):
     exps = S2
     okn = (isinstance(exps, tuple) and len(exps) == 4 and exps[0] == "loopout" and isinstance(expr, tuple) and expr[0] == "bin" and expr[1] == "Div" and expr[2] == el2
            and isinstance(expr[3], tuple) and len(expr[3]) == 4 and expr[3][0] == "loopout" and expr[3][2] == exps[2])
+    sum_loop = None
+    if (not okn and isinstance(exps, tuple) and len(exps) == 4 and exps[0] == "loopout" and isinstance(expr, tuple) and expr[0] == "bin" and expr[1] == "Div" and expr[2] == el2
+            and isinstance(expr[3], tuple) and len(expr[3]) == 4 and expr[3][0] == "loopout"):
+        # the sum accumulated by a second loop over the finished exponent list, front to back: the same additions in the same order
+        L2 = E.loop_summaries.get(expr[3][2])
+        if L2 is not None and L2.get("kind") == "for":
+            s2, e2_ = sources(L2["iter"], expr[3][2])
+            p2 = L2["paths"]
+            if e6.strip_upd(s2) == e6.strip_upd(exps) and len(p2) == 1 and p2[0].exit is None and not p2[0].pc:
+                ef2 = [e_ for e_ in p2[0].eff if e_[0] != "loop"]
+                if len(ef2) == 1 and ef2[0][0] == "set" and ef2[0][1] == ("local", expr[3][1]) and ef2[0][2] == e6.mk_bin("Add", ("loopin", expr[3][1], expr[3][2]), e2_):
+                    sum_loop = expr[3][2]
+                    okn = True
     ctx.check("R07.5", "normalisation", okn, "outputs-not-exp-over-sum", c.loc(fn), "y_i = e_i / sum, in order",
               "result element is %s over %s" % (e6.show(expr, 3)[:120], e6.show(S, 2)[:80]))
     if not okn:
@@ -317,6 +330,8 @@ def softmax(ctx):
     other = [e for e in eff if e not in sets and e not in pushes]
     EXP = pushes[0][2] if len(pushes) == 1 else None
     oks = (len(sets) == 1 and len(pushes) == 1 and not other and sets[0][2] == e6.mk_bin("Add", ("loopin", sumv[1], lid), EXP))
+    if sum_loop is not None:
+        oks = not sets and len(pushes) == 1 and not other        # (the sum loop was checked above: sum += each stored exponent, in order)
     ctx.check("R07.5", "sum-and-push-same-exponent", oks, "sum-or-push-mismatch", c.loc(fn, L["node"]), "sum += exp; exps.push(exp)",
               "loop effects: %s" % "; ".join(e[0] + " " + e6.show(e[2], 3)[:80] for e in eff))
     ctx.check("R07.5", "sum-starts-at-zero", sumv[3] in (("lit", "0.0"), ("lit", "0.0f32"), ("lit", "0."), ("lit", "0f32")) and
